@@ -258,6 +258,26 @@ func (c08) Generate(r *sim.Rand, tier string) *sim.Scenario {
 				ys = append(ys, y)
 			}
 		}
+		if len(ys) >= 70 && len(shadow.T[live[0]].Shape()) >= 1 && r.Bool(0.5) {
+			// half of the wide histories: Concat lists of 65-130 operands, each then
+			// reduced along the concat dimension
+			var joined []int
+			for len(ys) > 0 {
+				k := r.Range(65, 130)
+				if k > len(ys) || len(ys)-k < 20 {
+					k = len(ys)
+				}
+				cat, ok2 := explicit(0, sim.Step{Op: "concat", In: append([]int{}, ys[:k]...), I: []int{0}})
+				ys = ys[k:]
+				if !ok2 {
+					break
+				}
+				if red, ok3 := explicit(0, sim.Step{Op: "sumalong", In: []int{cat}, I: []int{0}}); ok3 {
+					joined = append(joined, red)
+				}
+			}
+			ys = joined
+		}
 		for len(ys) > 1 {
 			var next []int
 			for i := 0; i+1 < len(ys); i += 2 {
